@@ -94,6 +94,9 @@ def _plain(v):
 CALLS = []
 
 
+_LAST = {}
+
+
 def _step(state, instruction, shots):
     """mirror of Driver/Engine.lean `scriptedOracle`"""
     params = dict(instruction.params)
@@ -103,17 +106,20 @@ def _step(state, instruction, shots):
         raise RuntimeError(f"fault{f}")
     d = state.d if state is not None else 0
     log = state.log if state is not None else []
+    # a step applied after every mode has been measured receives `None` (Lean: `req.state.getD {d := 0, log := []}`)
+    conn = state._connector if state is not None else _LAST["connector"]
+    conf = state._config if state is not None else _LAST["config"]
     cls = CLASSES.index(type(instruction))
     modes = ",".join(str(int(m)) for m in instruction.modes) or "-"
     entry = f"{cls}[{modes}]{show_params(params)}@{shots if shots is not None else 'none'}"
     if "outs" not in params:
-        st = FakeState(d, state._connector, state._config, log + [entry])
+        st = FakeState(d, conn, conf, log + [entry])
         return [Branch(state=st)]
     outs = params["outs"]
     if not isinstance(outs, tuple):
         raise RuntimeError("fault997")
     d2 = d - len(instruction.modes)
-    st2 = FakeState(d2, state._connector, state._config, log + [entry]) if d2 > 0 else None
+    st2 = FakeState(d2, conn, conf, log + [entry]) if d2 > 0 else None
     oc = lambda o: tuple(o) if isinstance(o, tuple) else (o,)
     res = []
     if shots is not None:
@@ -226,6 +232,7 @@ def run_real(req, use_callables=False, program_obj=None):
     originals = [{"modes": i.modes, "params": dict(i.params)} for i in instrs]
     program = Program(instructions=instrs)
     sim = FakeSim(d=req["simd"], config=Config(seed_sequence=123))
+    _LAST["connector"], _LAST["config"] = sim._connector, sim.config
     init = None
     if req["init_tag"] == "wrong":
         init = OtherState(req["init_d"], sim._connector, sim.config)
